@@ -236,8 +236,20 @@ def fam_fft_length_persistence(ctx, rng):
     items, dt, n = gen_items(rng)
     kind = str(rng.choice(["freq", "single", "rotdpp", "azimuthal"]))
     cfg = gen_cfg(rng, dt, n, kind)
-    variant = str(rng.choice(["n-none", "interleaved-longer-recordings", "longer-recordings-with-another-settings-object"]))
+    variant = str(rng.choice(["n-none", "interleaved-longer-recordings", "longer-recordings-with-another-settings-object",
+                              "mixed-time-steps-longer-record-later"]))
     cfg["user_n"] = None
+    if variant == "mixed-time-steps-longer-record-later":
+        # one call holds recordings of two time steps, and a LATER one needs a longer FFT than the earlier ones:
+        # calling twice with the same settings object must still give the same curves for every recording
+        dt = float(rng.choice([0.01, 0.02]))
+        items = [tuple(gen.recording_arrays(rng, int(rng.choice([2000, 6000])), "white", 1.0)) + (dt,),
+                 tuple(gen.recording_arrays(rng, 33000, "white", 1.0)) + (dt / 2,)]
+        if rng.random() < 0.5:
+            items.append(tuple(gen.recording_arrays(rng, 3000, "white", 1.0)) + (dt,))
+        cfg = gen_cfg(rng, dt, 33000, kind)
+        cfg["user_n"] = None
+        cfg["policy"] = "frequency_domain_resampling"
     ctx.describe(n_recordings=len(items), dt=dt, n=n, variant=variant, **cfg)
 
     def recs_of(its):
